@@ -344,6 +344,31 @@ pub fn all_cases() -> Vec<Case> {
             }
         }
     }
+    // E3. the certificate file of the `ssl` / `quic` section is put in place only after the client has started and has tried
+    //     its first flow: that flow fails, the flows after it use the certificate the section names (the documented meaning of
+    //     `certificateFile`: the certificate the server is checked against - not some other trust store once the first read failed)
+    for (proto, cipher, which) in [("trojan", "aes-128-gcm", "ssl"), ("vmess", "aes-128-gcm", "ssl+ws"), ("shadowsocks", "2022-blake3-aes-128-gcm", "ssl"), ("trojan", "aes-128-gcm", "quic")] {
+        let (pw_s, pw_c, users) = if proto == "vmess" {
+            let id = gen_uuid(&mut g);
+            ("unused".to_owned(), id.clone(), vec![("u".to_owned(), id)])
+        } else {
+            let k = key_for(&mut g, cipher);
+            (k.clone(), k, vec![])
+        };
+        let smode = if proto == "shadowsocks" { Some("tcp") } else { None };
+        // (a path of this worker's own: several checks may run side by side)
+        let late = format!("/dev/shm/verif-late-certificate-{}-{proto}-{}.crt", std::process::id(), which.replace('+', "-"));
+        v.push(Case {
+            class: "late-certificate".into(),
+            label: format!("{proto}/{cipher}/{which}"),
+            server_json: section(&server_json(proto, cipher, smode, &pw_s, &users, false), true, which),
+            client_json: section(&client_json(proto, cipher, Some("tcp"), &pw_c, false), false, which).replace(CERT, &late),
+            expect: Some((true, which == "quic", true, false)),
+            failing_side: String::new(),
+            canary_tcp: true,
+            canary_udp: false,
+        });
+    }
     // F. key lists "iPSK1:...:iPSKn:uPSK" of the Shadowsocks 2022 AES ciphers: the identity headers the client puts on the
     //    wire (stream and datagram) must be the chain the list spells, in that order
     for cipher in ["2022-blake3-aes-128-gcm", "2022-blake3-aes-256-gcm"] {
@@ -439,7 +464,7 @@ pub fn gen_c16(seed: u64, _thorough: bool) -> Plan {
         config: gen_config(&mut g, Proto::Shadowsocks, "aes-128-gcm", Transport::Tcp, 0),
         knobs: KnobsPlan::simple(),
         flows: vec![],
-        extra: serde_json::json!({ "case": case, "total_cases": cases.len() }),
+        extra: serde_json::json!({ "case": case, "total_cases": cases.len(), "fresh_process": case.class == "late-certificate" }),
     }
 }
 
@@ -621,7 +646,24 @@ pub fn execute_c16(plan: &Plan) -> Outcome {
         }
         tokio::time::sleep(Duration::from_millis(50)).await;
         let mut seen = Seen { bound: (tcp_listening(SERVER_PORT), udp_bound(SERVER_PORT), tcp_listening(CLIENT_PORT), udp_bound(CLIENT_PORT)), ..Default::default() };
-        if case.expect == Some(seen.bound) {
+        if case.class == "late-certificate" && case.expect == Some(seen.bound) {
+            // the path the client's section names: absent for the first flow, the certificate afterwards
+            let path = serde_json::from_str::<serde_json::Value>(&case.client_json).ok().and_then(|v| {
+                let s = &v["servers"][0];
+                s["ssl"]["certificateFile"].as_str().or(s["quic"]["certificateFile"].as_str()).map(|x| x.to_owned())
+            });
+            if let Some(path) = path.filter(|p| p.starts_with("/dev/shm/verif-late-certificate-")) {
+                let _ = std::fs::remove_file(&path);
+                let first = tcp_canary().await;
+                let _ = std::fs::copy(CERT, &path);
+                tokio::time::sleep(Duration::from_secs(1)).await;
+                seen.tcp_canary = Some(match (first, tcp_canary().await) {
+                    (Ok(()), _) => Err("a flow was served although the certificate file the section names did not exist".to_owned()),
+                    (Err(_), second) => second.map_err(|e| format!("the certificate file was put in place after the first (failed) flow; the next flow still fails: {e}")),
+                });
+                let _ = std::fs::remove_file(&path);
+            }
+        } else if case.expect == Some(seen.bound) {
             if case.canary_tcp {
                 seen.tcp_canary = Some(tcp_canary().await);
             }
